@@ -92,7 +92,7 @@ package storage
 //@   at Append#1 before assert [C02.contiguous] l.nextOffset == old(l.nextOffset) + int64(old(batch.LastOffsetDelta)) + 1
 //@   at Append#1 before assert [C02.strictly_increasing] l.nextOffset > old(l.nextOffset)
 //@   at ShouldFlush#1 before assert [C02.result_offsets] result.BaseOffset == old(l.nextOffset) && result.LastOffset == old(l.nextOffset) + int64(old(batch.LastOffsetDelta)) && l.nextOffset == result.LastOffset + 1
-//@   at ShouldFlush#1 after stop
+//@   at ShouldFlush#1 after stop [C02]
 //@
 //@ func (l *PartitionLog) uploadFlush
 //@   never_writes [C02.upload_never_moves_next_offset] PartitionLog.nextOffset
